@@ -109,7 +109,7 @@ INSTANCES = [
     ("log_file_time_rot_handler_write_rotate", 302, 2, False, False, True),
     ("log_console_handler_init", 303, 0, True, True, True),
     ("log_simple_init", 304, 1, True, True, True),
-    # recorded known finding: the result of muggle_log_file_time_rot_handler_init is dropped (success reported)
+    # repaired (fixes/C18-log-complicated-init-reports-failure.patch): the failed file handler is reported
     ("log_complicated_init", 305, 1, True, True, True),
     ("socket_create", 306, 1, True, True, True), ("tcp_listen", 307, 1, True, True, True),
     ("tcp_connect", 308, 1, True, True, True), ("tcp_bind", 309, 1, True, True, True),
@@ -182,7 +182,7 @@ LABEL_NAMES = {
     83: "log_file_handler_init: fopen failed", 84: "log_file_rotate_handler_init: fopen failed",
     85: "fast_flow_ctl_init: arr NULL", 86: "time_rot rotate: fopen failed", 87: "time_rot_handler_init: rotate failed",
     88: "time_rot handler write: rotate failed (printed only)", 89: "log_simple_init: rotate handler init failed",
-    90: "log_complicated_init: time_rot handler init failed (proposed repair only)", 91: "muggle_os_fopen: fopen failed",
+    90: "log_complicated_init: time_rot handler init failed", 91: "muggle_os_fopen: fopen failed",
     92: "socket_create: socket failed", 93: "tcp_listen: no socket", 94: "tcp_connect: no socket", 95: "tcp_bind: no socket",
     96: "tcp_bind_connect: tcp_bind failed", 97: "udp_bind: no socket", 98: "udp_connect: no socket",
     99: "mcast_join: socket failed", 100: "socketpair failed", 101: "heap_sort: heap_init failed",
@@ -191,10 +191,9 @@ LABEL_NAMES = {
 
 BY_NAME = {t[0]: t for t in INSTANCES}
 KNOWN_VOID = "void-socket-evloop-add-ctx"
-KNOWN_COMPLICATED = "log-complicated-init-drops-handler-failure"
 # instances whose ONLY recorded defect is the missing failure report: every other clause is still checked for them,
 # and the "reported SUCCESS" message is produced LAST (when nothing else is wrong with the case)
-KNOWN_UNREPORTED = {"socket_evloop_add_ctx": KNOWN_VOID, "log_complicated_init": KNOWN_COMPLICATED}
+KNOWN_UNREPORTED = {"socket_evloop_add_ctx": KNOWN_VOID}
 
 RULE = ("complete enumeration: for each of the %d instances (public constructor / grower / inserter + its destroy) the "
         "no-fault run and every single-fault position k = 1 .. (calls on the success path)+3, each in TWO futures (A: destroy "
@@ -291,13 +290,13 @@ EVIDENCE_NOTES = [
     "sentinel through the channel and joins the writer thread, neither of which exists after a failed init, so the API offers no "
     "destroy for a logger whose init failed; the waiver is shrunk: the failed init is now RETRIED on the same storage, must succeed, "
     "and destroy runs after the retry (future B)",
-    "KNOWN CLASSES are no longer removed wholesale: for instance 44 (void muggle_socket_evloop_add_ctx) and 305 "
-    "(muggle_log_complicated_init) the monitor checks every other clause first (leak, crash, destroy) and produces the 'reported SUCCESS' "
-    "text last; theorem known_class_instances_leak_free_crash_free / all_instances_hold_partial state the property without its reporting "
-    "clause for them (no_report), under every fault function",
-    "NEW KNOWN FINDING log-complicated-init-drops-handler-failure: muggle_log_complicated_init ignores the result of "
-    "muggle_log_file_time_rot_handler_init; when that fopen fails it returns 0 and attaches a handler without a file.  A small repair "
-    "is proposed in fixes/C18-log-complicated-init-reports-failure.patch (modelled as i_log_complicated_init_fixed, proved wf).  "
+    "THE KNOWN CLASS is no longer removed wholesale: for instance 44 (void muggle_socket_evloop_add_ctx) the monitor checks every other "
+    "clause first (leak, crash, destroy) and produces the 'reported SUCCESS' text last; theorem known_class_instances_leak_free_crash_free / "
+    "all_instances_hold_partial state the property without its reporting clause for it (no_report), under every fault function",
+    "REPAIRED DEFECT found by the coverage round: muggle_log_complicated_init ignored the result of "
+    "muggle_log_file_time_rot_handler_init; when that fopen failed it returned 0 and attached a handler without a file "
+    "(fixes/C18-log-complicated-init-reports-failure.patch; instance 305 models the repaired code, instance 195 the unchanged code, "
+    "refuted with witness k = 1: lemma log_complicated_init_orig_returns_success_on_failed_fopen).  "
     "OBSERVATIONS outside the property's scope (not claimed, listed in Coverage.v): muggle_os_listdir dereferences an unchecked "
     "file-name malloc and silently drops an entry whose node malloc failed; muggle_shm_open leaks the segment it created when shmat "
     "fails; muggle_log_simple_init leaves the console handler attached to the default logger when the file handler fails, so a retry "
@@ -659,7 +658,7 @@ MANIFEST = {
                    "decision tree explored by the checker wf_scn covers every fault function; a scenario accepted by wf_scn reports "
                    "failure, leaks nothing, does not crash/hang/double-free and is safe to destroy under EVERY fault set, and behaves "
                    "under any fault set as under its first hit.  99 instances transcribe the anchored constructors / growers / "
-                   "inserters / destroys literally (wf_scn = true by vm_compute for the repaired code; the 17 transcriptions of the "
+                   "inserters / destroys literally (wf_scn = true by vm_compute for the repaired code; the 18 transcriptions of the "
                    "unchanged defective code are refuted with a witness k; every failing operation is followed in two futures: destroy at "
                    "once, and retry + continued use + destroy).  Tied to the C code on every run by complete single-fault "
                    "enumeration + seeded multi-fault sets on the library compiled from the working tree with the allocator and "
